@@ -936,6 +936,73 @@ def scenario_marks(rng):
     return out
 
 
+def scenario_dellog(rng):
+    """the deletion log (C04): messages are deleted for everybody and for single users; somebody subscribes afterwards, somebody who
+    had left comes back, the topic is reloaded - and each of them asks for the log from some transaction on (as the client libraries
+    do when they attach) and for the history"""
+    out = _preamble(rng)
+    p2p = rng.chance(1, 4)
+    if p2p:
+        nm = {"S1": "U2", "S2": "U1"}
+        key = "P:U1:U2"
+        early, late = ["S1", "S2"], []
+        out.extend(["sub S1 U2", "sub S2 U1"])
+    else:
+        nm = {"S1": "T1", "S2": "T1", "S3": "T1", "S4": "T1"}
+        key = "T1"
+        out.append("newgrp S1" + rng.choice(["", " auth=JRWPSD"]))
+        early, late = ["S1", "S2"], ["S3"]
+        out.append(f"setsub S1 T1 user=U2 mode={rng.choice(['JRWPSD', 'JRWPS', 'JRWPD'])}")
+        out.append("sub S2 T1")
+    n = 0
+    for _ in range(3 + rng.below(5)):
+        n += 1
+        s_ = rng.choice(early)
+        out.append(f"pub {s_} {nm[s_]} D{n}")
+    ndel = 0
+    for _ in range(1 + rng.below(3)):
+        s_ = rng.choice(early)
+        lo = 1 + rng.below(n)
+        hi = lo + 1 + rng.below(3)
+        out.append(f"delmsg {s_} {nm[s_]} {lo}:{hi}" + rng.choice(["", " hard=1", " hard=1"]))
+        ndel += 1
+        if rng.chance(1, 3):
+            n += 1
+            out.append(f"pub {s_} {nm[s_]} D{n}")
+    ask = lambda s_: [f"get {s_} {nm[s_]} del" + rng.choice(["", " since=1", " since=1", f" since={1 + rng.below(ndel + 1)}", f" since=1 before={1 + rng.below(ndel + 2)}"]),
+                      f"get {s_} {nm[s_]} data"]
+    k = rng.below(4)
+    if k == 0 and late:
+        for s_ in late:
+            out.append(f"sub {s_} {nm[s_]}")
+            out.extend(ask(s_))
+    elif k == 1:
+        s_ = rng.choice(early[1:])
+        out.append(f"leave {s_} {nm[s_]} unsub=1")
+        if rng.chance(1, 2):
+            s2 = early[0]
+            out.append(f"delmsg {s2} {nm[s2]} 1:{n + 1}" + rng.choice(["", " hard=1"]))
+        out.append(f"sub {s_} {nm[s_]}")
+        out.extend(ask(s_))
+    elif k == 2:
+        if rng.chance(1, 2):
+            out.append("restart")
+        else:
+            for s_ in early:
+                out.append(f"leave {s_} {nm[s_]}")
+            out.append(f"unload {key}")
+        for s_ in early + late:
+            out.append(f"sub {s_} {nm[s_]}")
+            out.extend(ask(s_))
+    else:
+        for s_ in early:
+            out.extend(ask(s_))
+    for s_ in early:
+        if rng.chance(1, 2):
+            out.extend(ask(s_))
+    return out
+
+
 def gen_world(rng, tier):
     ncases = 600 if tier == "thorough" else 420
     for i in range(ncases):
@@ -951,6 +1018,10 @@ def gen_world(rng, tier):
         if i % 6 == 1:
             # crossings are extra too (a generator of their own)
             for l in scenario_cross(rng.fork(f"cross-scenario-{i}")):
+                yield l
+        if i % 6 == 3:
+            # who is told what was deleted (a generator of their own)
+            for l in scenario_dellog(rng.fork(f"dellog-scenario-{i}")):
                 yield l
         if i % 6 == 4:
             # the marks across a reload (a generator of their own)
